@@ -344,10 +344,17 @@ def run_after_fast(fam_args, second_mode, on_copy):
     from ..universe import fam_staircase
     from ..spec import continuum_to_spec
     pa = load()
-    spec = fam_staircase(*fam_args)
+    from ..universe import fam_nested
+    spec = fam_staircase(*fam_args[:2]) if len(fam_args) == 2 else fam_nested(*fam_args[:2])
     d = A.DISSIMS.get(RECIPE)
     c = build_continuum(spec)
     probs = []
+    calls = {"fast": 0}
+    orig_fast = pa.Continuum.get_fast_alignment
+
+    def spy_fast(self, *a, **k):
+        calls["fast"] += 1
+        return orig_fast(self, *a, **k)
     with serial_pool():
         np.random.seed(2)
         c.compute_gamma(d, n_samples=1, fast=True)
@@ -355,7 +362,14 @@ def run_after_fast(fam_args, second_mode, on_copy):
             return ["HARNESS-SKIP window stayed infinite"], None
         target = c.copy() if on_copy else c
         np.random.seed(3)
-        res = target.compute_gamma(d, n_samples=2, **MODES[second_mode])
+        pa.Continuum.get_fast_alignment = spy_fast
+        try:
+            res = target.compute_gamma(d, n_samples=2, **MODES[second_mode])
+        finally:
+            pa.Continuum.get_fast_alignment = orig_fast
+    if calls["fast"]:
+        probs.append(f"{second_mode} gamma after a fast one on the same continuum{' (copy)' if on_copy else ''}: the windowed "
+                     f"(fast) algorithm was used {calls['fast']} time(s) although {second_mode} mode was requested")
     fresh = build_continuum(spec)
     want = A.run_alignment(fresh, d, "soft" if second_mode == "soft" else "best")
     if not close(float(res.observed_disorder), float(want.disorder)):
@@ -373,7 +387,7 @@ def run_after_fast(fam_args, second_mode, on_copy):
 
 def shards(tier, seed):
     tasks = []
-    for fam in ((5, 8), (4, 12)):
+    for fam in ((5, 8), (4, 12), (5, 8, "nested")):
         for mode in ("exact", "soft"):
             for on_copy in (False, True):
                 tasks.append({"after_fast": {"fam": list(fam), "mode": mode, "copy": on_copy}})
